@@ -227,3 +227,13 @@ Proof. repeat split; eexists; (split; [vm_compute; reflexivity|]); repeat split;
    * relative-path references: besides D7a/b/c, NormalizeProofs.idempotent_refuted_stale_dot
      ("./b:c/../x" -> "./x" -> "x") and NormalizeProofs.relative_dot_eaten ("./b:c/../../x" -> "x",
      RFC 3986: "../x"). *)
+
+(* ---- uriIsUnreserved (UriNormalizeBase.c), its switch translated from the C source on every check: one case
+   group, exactly the unreserved characters (is_unreserved_code).  Proof in Proofs/SwitchUnreserved.v. *)
+From UP Require Import Generated.SwitchTables Proofs.SwitchBase Proofs.SwitchUnreserved.
+
+Theorem C08_is_unreserved_switch :
+  length t_is_unreserved = 1%nat
+  /\ forall c, In c (concat t_is_unreserved) <-> is_unreserved_code c = true.
+Proof. exact is_unreserved_switch. Qed.
+Print Assumptions C08_is_unreserved_switch.
